@@ -141,11 +141,30 @@ type opRec struct {
 	Data  string  `json:"data,omitempty"`
 	Index uint32  `json:"index,omitempty"`
 	Msg   *msgRec `json:"msg,omitempty"` // reload: nil = Reload(nil)
+	// Repeat > 1: the call is made that many times in a row (reload / unload only; such histories are
+	// monitor-only, the Coq case would need the expanded list)
+	Repeat int `json:"repeat,omitempty"`
 }
 
 type history struct {
 	Init *msgRec `json:"init"` // nil = LoadFilter(nil)
 	Ops  []opRec `json:"ops"`
+	// NewFilter != nil: the object is built by bloom.NewFilter with these arguments instead of
+	// LoadFilter(Init); Init then describes the message NewFilter produced (all-zero array)
+	NewFilter *newFilterArgs `json:"newfilter,omitempty"`
+}
+
+type newFilterArgs struct {
+	Elements   uint32 `json:"elements"`
+	Tweak      uint32 `json:"tweak"`
+	FprateBits string `json:"fprate_bits"` // %016x of math.Float64bits
+	Flags      uint32 `json:"flags"`
+}
+
+func (a *newFilterArgs) build() *bloom.Filter {
+	var bits uint64
+	fmt.Sscanf(a.FprateBits, "%x", &bits)
+	return bloom.NewFilter(a.Elements, a.Tweak, math.Float64frombits(bits), wire.BloomUpdateType(a.Flags))
 }
 
 func mkMsg(m *msgRec) *wire.MsgFilterLoad {
@@ -231,7 +250,11 @@ func runHistory(h history, corr bool, family string) {
 	var f *bloom.Filter
 	var ref *refFilter
 	init := mkMsg(h.Init)
-	f = bloom.LoadFilter(init)
+	if h.NewFilter != nil {
+		f = h.NewFilter.build()
+	} else {
+		f = bloom.LoadFilter(init)
+	}
 	if init != nil {
 		ref = refFromBytes(init.Filter, init.HashFuncs, init.Tweak, uint32(init.Flags))
 	} else {
@@ -291,6 +314,9 @@ func runHistory(h history, corr bool, family string) {
 				}
 			case "reload":
 				m := mkMsg(o.Msg)
+				for k := 1; k < o.Repeat; k++ {
+					f.Reload(m)
+				}
 				f.Reload(m)
 				if m == nil {
 					ref = &refFilter{}
@@ -310,6 +336,9 @@ func runHistory(h history, corr bool, family string) {
 				}
 				live = nil
 			case "unload":
+				for k := 1; k < o.Repeat; k++ {
+					f.Unload()
+				}
 				f.Unload()
 				ref = &refFilter{}
 				live = nil
@@ -374,6 +403,11 @@ func runHistory(h history, corr bool, family string) {
 	rep.Count("history:"+family, key, nontrivial)
 	if nontrivial && (family == "core" || family == "reload-stale" || family == "random") && len(h.Ops) <= 8 {
 		rep.Sample(map[string]interface{}{"family": family, "history": clipHistory(h), "returned": obs}, 5)
+	}
+	for _, o := range h.Ops {
+		if o.Repeat > 1 {
+			corr = false
+		}
 	}
 	if corr {
 		initS := "None"
@@ -597,6 +631,22 @@ func sizingCase(elements, tweak uint32, fprate float64, flags uint32, corr bool)
 	if m.Tweak != tweak || uint32(m.Flags) != flags {
 		rep.Violate("C09:sizing:params", "NewFilter did not store tweak/flags", in)
 	}
+	// the object NewFilter returns, used as it is: queries BEFORE any insertion (an all-zero array matches nothing
+	// when there is at least one hash function and EVERYTHING when there is none or the array is empty), then an
+	// insertion and queries again; same monitors and the same Coq case as a LoadFilter history with these fields
+	{
+		x := []byte(fmt.Sprintf("fresh/%d/%d", elements, tweak))
+		txid := vh.Hex(append([]byte(fmt.Sprintf("%032d", elements)), x...)[:32])
+		h := history{Init: recOf(make([]byte, len(m.Filter)), m.HashFuncs, m.Tweak, uint32(m.Flags)),
+			NewFilter: &newFilterArgs{Elements: elements, Tweak: tweak, FprateBits: fmt.Sprintf("%016x", math.Float64bits(fprate)), Flags: flags},
+			Ops: []opRec{{Op: "isloaded"}, {Op: "matches", Data: vh.Hex(x)}, {Op: "matchesoutpoint", Data: txid, Index: tweak}, {Op: "matches", Data: ""},
+				{Op: "add", Data: vh.Hex(x)}, {Op: "matches", Data: vh.Hex(x)}, {Op: "matches", Data: vh.Hex(x[1:])},
+				{Op: "addoutpoint", Data: txid, Index: tweak}, {Op: "matchesoutpoint", Data: txid, Index: tweak}}}
+		runHistory(h, corr && len(m.Filter) <= 4096, "newfilter-fresh")
+		if m.HashFuncs == 0 && len(m.Filter) > 0 {
+			rep.Count("newfilter-fresh:k=0,non-empty", fmt.Sprintf("%d/%x", elements, math.Float64bits(fprate)), true)
+		}
+	}
 	if len(sizingTable) < 60 && rep.Histogram["sizing"]%7 == 1 {
 		sizingTable = append(sizingTable, in)
 	}
@@ -783,11 +833,13 @@ func main() {
 		}
 	}
 	// long items (script pushes go up to 520 bytes; Add accepts anything): 64 KiB and more, through Add/Matches
-	for _, n := range []int{521, 65535, 65536, 65537, 70000} {
+	// (255..257: one-byte length; 519..524: wire.MaxFilterAddDataSize = 520, the filteradd payload limit, is NOT a
+	// limit of Filter.Add; 4099, 65535..: two-byte length and beyond)
+	for _, n := range []int{255, 256, 257, 519, 520, 521, 522, 523, 524, 1000, 4099, 65535, 65536, 65537, 70000} {
 		big := vh.Hex(r.Bytes(n))
-		h := history{Init: recOf(make([]byte, vh.Pick(r, []int{3, 64, 36000})), uint32(1+r.Intn(50)), r.U32(), 0),
-			Ops: []opRec{{Op: "add", Data: big}, {Op: "matches", Data: big}, {Op: "matches", Data: big[:len(big)-2]}}}
-		runHistory(h, false, "longitem")
+		h := history{Init: recOf(make([]byte, vh.Pick(r, []int{3, 64, 2000, 36000})), uint32(1+r.Intn(50)), r.U32(), 0),
+			Ops: []opRec{{Op: "matches", Data: big}, {Op: "add", Data: big}, {Op: "matches", Data: big}, {Op: "matches", Data: big[:len(big)-2]}}}
+		runHistory(h, corrAll && n <= 1000 && (n%2 == 1 || cfg.Thorough()), "longitem")
 	}
 	// random histories with Reload/Unload, all starting states
 	nh := cfg.Scale(400, 6000)
@@ -908,6 +960,25 @@ func main() {
 		}
 		runHistory(h, corrAll && (sz2 <= 64) && j < cfg.Scale(30, 150), "reload-sameitem")
 	}
+	// ... and with a RUN of n replacements (Reload/Unload calls) in between, n around the widths a generation
+	// counter could have (2^8, 2^16; Reload is O(1)); nothing else is hashed in between
+	for j, n := range []int{2, 255, 256, 257, 65535, 65536, 65537, 131072} {
+		for v := 0; v < 2; v++ {
+			x := itemOfLen(r, vh.Pick(r, []int{20, 32, 36}))
+			szA, szB := vh.Pick(r, []int{8, 64}), vh.Pick(r, []int{3, 4096})
+			a := recOf(make([]byte, szA), 5, 1+r.U32()%1000, 0)
+			b := popMsg(szB, uint32(1+r.Intn(8)), r.U32(), 1, [][]byte{x}) // the final filter contains x
+			h := history{Init: a, Ops: []opRec{{Op: vh.Pick(r, []string{"add", "matches"}), Data: vh.Hex(x)}}}
+			if v == 0 { // n-1 times Unload, then Reload(b): n replacements
+				h.Ops = append(h.Ops, opRec{Op: "unload", Repeat: n - 1}, opRec{Op: "matches", Data: vh.Hex(x)}, opRec{Op: "reload", Msg: b})
+			} else { // n-1 times Reload(a'), then Reload(b)
+				h.Ops = append(h.Ops, opRec{Op: "reload", Msg: recOf(make([]byte, szA), 5, r.U32(), 0), Repeat: n - 1}, opRec{Op: "reload", Msg: b})
+			}
+			h.Ops = append(h.Ops, opRec{Op: "matches", Data: vh.Hex(x)}, opRec{Op: "add", Data: vh.Hex(x)}, opRec{Op: "matches", Data: vh.Hex(x)})
+			runHistory(h, corrAll && n <= 2, fmt.Sprintf("reload-run:%d", n))
+			_ = j
+		}
+	}
 	// unloaded filters: no reload at all
 	for j := 0; j < cfg.Scale(20, 200); j++ {
 		h := history{Init: nil, Ops: randOps(r, 2+r.Intn(8), false, 0)}
@@ -932,8 +1003,8 @@ func main() {
 
 	// --- sizing
 	r = rng.Fork("sizing")
-	elems := []uint32{0, 1, 2, 3, 10, 100, 1000, 10000, 288000, 1000000, 100000000, 1 << 31, 0xfffffffe, 0xffffffff}
-	rates := []float64{math.NaN(), math.Inf(1), math.Inf(-1), 0, math.Copysign(0, -1), -1, -1e300, 5e-324, 1e-300, 1e-10, 0.99e-9, 1e-9, 1.01e-9, 1e-6, 0.001, 0.01, 0.5, 0.999999, math.Nextafter(1, 0), 1.0, math.Nextafter(1, 2), 20.9999999769, 1e300, math.MaxFloat64}
+	elems := []uint32{0, 1, 2, 3, 10, 100, 1000, 10000, 199626, 199627, 288000, 300000, 1000000, 100000000, 1 << 31, 0xfffffffe, 0xffffffff}
+	rates := []float64{math.NaN(), math.Inf(1), math.Inf(-1), 0, math.Copysign(0, -1), -1, -1e300, 5e-324, 1e-300, 1e-10, 0.99e-9, 1e-9, 1.01e-9, 1e-6, 0.001, 0.01, 0.5, 0.500001, 0.6, 0.75, 0.9, 0.999999, math.Nextafter(1, 0), 1.0, math.Nextafter(1, 2), 20.9999999769, 1e300, math.MaxFloat64}
 	for _, e := range elems {
 		for k, p := range rates {
 			sizingCase(e, r.U32(), p, uint32(r.Intn(3)), corrAll && (k%4 == int(e)%4 || cfg.Thorough()))
